@@ -9,6 +9,7 @@ from lib import refmidi as R
 from lib.harness import Violation, exc_sig, fail
 from lib.vals import T, dec, items_of
 
+LAST_TAGS = set()
 PID = 'C03'
 LEVEL = 'exploration'
 RULE = ('(i) Exhaustive grid: every attribute (and time, and unknown / foreign attribute names) of all 18 types x a value '
@@ -230,11 +231,17 @@ class Interp:
 
 
 def run_case(case):
+    LAST_TAGS.clear()
     it = Interp()
     for op in case['ops']:
         it.step(op)
         if it.fails:
             break               # later steps would only report consequences of the first failure
+    if it.rejected:
+        LAST_TAGS.add('has-rejected-operation')
+    if it.accepted_after_reject:
+        LAST_TAGS.add('accepted-after-rejected')
+    LAST_TAGS.update('op:' + op[0] for op in case['ops'])
     return it.fails
 
 
@@ -415,7 +422,7 @@ class MsgMachine(RuleBasedStateMachine):
         self._do(['restr'])
 
     def teardown(self):
-        unknown = _CTX.run({'ops': self.ops})
+        unknown = _CTX.run_tagged({'ops': self.ops})
         if unknown:
             raise Violation(unknown[0]['sig'])
 
